@@ -23,7 +23,19 @@ Monitors (all harness side, nothing in /repo is touched):
 * the same pair's block across loads with different other particles present / different
   particle order;
 * fault sequences ok(A) -> faulty(B) -> ok(C) on ONE solver: exception type, identity
-  and bit-contents of the previously installed array after the failed load.
+  and bit-contents of the previously installed array after the failed load;
+* operand preservation, at the same hooks (so also for every nested call made by a load):
+  the array handed to ``interpolateCollisionArray`` and the target grid, the grid /
+  particle list / files handed to ``newFromDirectory``, the polynomial handed to
+  ``newFromPolynomial`` must be observably unchanged after the call -- (a) bit-identical
+  numbers, (b) same declared basis (``basisType``, ``getBasisType()``, polynomial axes) and
+  size, (c) same action on the low-order distributions computed from what the array says
+  about itself through ``__getitem__`` + ``getBasisType()``; ``changeBasis`` is documented
+  to work in place on its own object, so there the check is on every *other* array the
+  driver holds (watch list).  kind=operand cases keep ONE source array alive and go on
+  using it after reads, repeated interpolation from both bases, basis changes of a deep
+  copy, a there-and-back basis change of the source itself, newFromPolynomial on its
+  polynomial, installation in a solver and further loads.
 """
 from __future__ import annotations
 
@@ -52,7 +64,12 @@ RULE = ("load cases: enumerated over universe size 1-3 x stored N in {5,7,9,11} 
         "missing pair files, missing directory, target N above every/some stored size, "
         "size or basis differing in one file (every position), dataset absent/misnamed, "
         "metadata group or attribute absent; not-HDF5 / dataset-shape / unknown-basis "
-        "files are run and recorded but not judged.  A case is non-trivial when at least "
+        "files are run and recorded but not judged.  operand cases: universe size 1-3 x source "
+        "N in {5,7,9,11} x source basis x construction {newFromDirectory same/other file "
+        "basis, newFromPolynomial, constructor}; one source array used across reads, two "
+        "interpolations per target size (up to two sizes) from its own and from the other "
+        "basis, deep-copy basis changes, in-place there-and-back, solver installation and "
+        "reloads.  A case is non-trivial when at least "
         "one load was judged; distinct by its enumerated coordinates and data seed.")
 ASSUMPTIONS = [
     "restricted Chebyshev families (T_n-1 | T_n-x on pz, T_n-1 on pp) define the "
@@ -65,8 +82,14 @@ ASSUMPTIONS = [
     "the stored numbers of size N_s live on the Gauss-Lobatto nodes of size N_s; for a "
     "Uniform-spaced target grid the files do not say which nodes are meant, so "
     "size-changing loads on Uniform grids are run and counted but not judged",
-    "interpolateCollisionArray modifying its input object is recorded, not judged (the "
-    "property is about the returned operator)",
+    "'act identically after ... interpolation' covers the array handed to an operation as "
+    "well as the one returned: interpolateCollisionArray, newFromDirectory, "
+    "newFromPolynomial and the read accessors leave every array, grid, particle list and "
+    "file they are given observably unchanged (interpolateCollisionArray says so in its "
+    "source: 'to avoid modifying the input'); changeBasis is documented to work in place on "
+    "its own object and must leave every other array alone",
+    "newFromPolynomial shares the polynomial it is given with the new array (by design): "
+    "the monitor only requires that the call itself leaves the polynomial unchanged",
 ]
 CASE_TIMEOUT = 600
 CHUNK = 1
@@ -76,8 +99,26 @@ FLOORS = {
               "mon": {"newFromDirectory_calls": 2000, "changeBasis_judged": 1500,
                       "interpolate_calls": 800, "exact_loads": 150,
                       "action_pairs": 4000, "independence_pairs": 500,
-                      "fault_loads": 800, "snapshot_compares": 800},
-              "cls": {"P1": 10, "P2": 10, "P3": 10,
+                      "fault_loads": 800, "snapshot_compares": 800,
+                      # operand preservation (observed seeds 0-4: interpolate 2528-2681 of
+                      # which Cardinal source 1123-1222, newFromDirectory 4750-4972,
+                      # newFromPolynomial 6048-6400, changeBasis 9100-9587, source checks
+                      # 848-979, watch compares 768-888, 64-74 operand cases)
+                      "operand_checks_interpolate": 1600,
+                      "operand_checks_interpolate_src_Cardinal": 700,
+                      "operand_checks_interpolate_src_Chebyshev": 800,
+                      "operand_checks_newFromDirectory": 3000,
+                      "operand_checks_newFromPolynomial": 3900,
+                      "operand_checks_changeBasis": 5900, "operand_checks_reads": 40,
+                      "operand_source_checks": 550, "operand_watch_compares": 500,
+                      "operand_repeat_interpolations": 70,
+                      "operand_cross_basis_interpolations": 70,
+                      "operand_round_trips": 40, "operand_loads_over_installed": 80},
+              "cls": {"operand": 40, "operand:src=Cardinal": 20, "operand:src=Chebyshev": 20,
+                      "operand:P1": 13, "operand:P2": 13, "operand:P3": 13,
+                      "operand:how=dir": 15, "operand:how=dir-other": 15,
+                      "operand:how=poly": 5, "operand:how=ctor": 4,
+                      "P1": 10, "P2": 10, "P3": 10,
                       "fault:missing-file": 8, "fault:oversized-target": 8,
                       "fault:file-mismatch": 6, "fault:missing-content": 6,
                       "fault:all-511-subsets": 1,
@@ -86,8 +127,24 @@ FLOORS = {
                  "mon": {"newFromDirectory_calls": 30000, "changeBasis_judged": 20000,
                          "interpolate_calls": 10000, "exact_loads": 2000,
                          "action_pairs": 60000, "independence_pairs": 10000,
-                         "fault_loads": 8000, "snapshot_compares": 8000},
-                 "cls": {"P1": 100, "P2": 100, "P3": 100,
+                         "fault_loads": 8000, "snapshot_compares": 8000,
+                         # observed thorough seed 0: 39919 / 19635 / 20284 / 71828 / 94482 /
+                         # 141361 / 960 / 12720 / 11520 / 1680 / 1680 / 960 / 1920
+                         "operand_checks_interpolate": 20000,
+                         "operand_checks_interpolate_src_Cardinal": 9000,
+                         "operand_checks_interpolate_src_Chebyshev": 9000,
+                         "operand_checks_newFromDirectory": 35000,
+                         "operand_checks_newFromPolynomial": 45000,
+                         "operand_checks_changeBasis": 70000, "operand_checks_reads": 600,
+                         "operand_source_checks": 7500, "operand_watch_compares": 7000,
+                         "operand_repeat_interpolations": 1000,
+                         "operand_cross_basis_interpolations": 1000,
+                         "operand_round_trips": 600, "operand_loads_over_installed": 1200},
+                 "cls": {"operand": 600, "operand:src=Cardinal": 300,
+                         "operand:src=Chebyshev": 300, "operand:P1": 200, "operand:P2": 200,
+                         "operand:P3": 200, "operand:how=dir": 150, "operand:how=dir-other": 150,
+                         "operand:how=poly": 150, "operand:how=ctor": 150,
+                         "P1": 100, "P2": 100, "P3": 100,
                          "fault:missing-file": 80, "fault:oversized-target": 80,
                          "fault:file-mismatch": 60, "fault:missing-content": 60,
                          "fault:all-511-subsets": 4}},
@@ -221,6 +278,107 @@ def gridref(grid):
     return ref.GridRef(grid.rzValues, grid.rpValues)
 
 
+# ------------------------------------------------------------- operand preservation
+OPERAND_MECHS = ("interpolation-disturbs-its-source-array", "interpolation-disturbs-target-grid",
+                 "operation-disturbs-another-collision-array", "load-disturbs-its-inputs",
+                 "newFromPolynomial-disturbs-input-polynomial")
+
+
+def accessor_action(arr):
+    """Action of the array on every low-order distribution of its own grid, computed from
+    what the array *says about itself* through its public accessors (numbers via
+    __getitem__, which is what BoltzmannSolver reads; basis via getBasisType())."""
+    C = np.array(arr[slice(None)], dtype=float)
+    g = gridref(arr.grid)
+    A, scale = ref.actual_action(C, g, arr.getBasisType())
+    return A, scale, g
+
+
+def array_state(arr):
+    """Everything a user of the array can observe: (a) numbers, (b) basis/size/labels,
+    (c) action on test vectors."""
+    pd = arr.polynomialData
+    A, scale, _ = accessor_action(arr)
+    return {"coef": np.array(pd.coefficients, dtype=float, copy=True),
+            "basisType": arr.basisType, "getBasisType": arr.getBasisType(),
+            "pbasis": tuple(pd.basis), "size": arr.size, "getBasisSize": arr.getBasisSize(),
+            "particles": list(arr.particles), "grid": arr.grid, "gridN": int(arr.grid.N),
+            "gridstate": grid_state(arr.grid), "action": A, "scale": scale}
+
+
+def state_diff(arr, snap):
+    """None if the array is observably what it was when snapshotted, else what changed."""
+    why = []
+    c = np.asarray(arr.polynomialData.coefficients)
+    if c.shape != snap["coef"].shape:
+        why.append(f"shape {snap['coef'].shape} -> {c.shape}")
+    elif not np.array_equal(c, snap["coef"]):
+        nbad = int(np.sum(c != snap["coef"]))
+        why.append(f"{nbad} of {c.size} stored numbers changed (largest change "
+                   f"{float(np.nanmax(np.abs(c - snap['coef']))):.3e}, magnitude "
+                   f"{float(np.max(np.abs(snap['coef']))):.3e})")
+    lab = (arr.basisType, arr.getBasisType(), tuple(arr.polynomialData.basis))
+    lab0 = (snap["basisType"], snap["getBasisType"], snap["pbasis"])
+    if lab != lab0:
+        why.append(f"declared basis (basisType, getBasisType(), polynomial axes) {lab0} -> {lab}")
+    elif c.shape == snap["coef"].shape and not np.array_equal(c, snap["coef"]):
+        why[-1] += f" while it still declares basis {arr.basisType}"
+    if arr.size != snap["size"] or arr.getBasisSize() != snap["getBasisSize"]:
+        why.append(f"size {snap['size']} -> {arr.size}")
+    if arr.grid is not snap["grid"]:
+        why.append("grid object replaced")
+    elif grid_diff(arr.grid, snap["gridstate"]):
+        why.append(grid_diff(arr.grid, snap["gridstate"]))
+    if len(arr.particles) != len(snap["particles"]) or any(
+            q is not q0 for q, q0 in zip(arr.particles, snap["particles"])):
+        why.append("particle list changed")
+    try:
+        A, _, _ = accessor_action(arr)
+        if A.shape != snap["action"].shape or not np.array_equal(A, snap["action"]):
+            r = float(np.max(np.abs(A - snap["action"]))) if A.shape == snap["action"].shape \
+                else math.inf
+            why.append(f"its action on the low-order distributions changed by {r:.3e} "
+                       f"(magnitude {float(np.max(snap['scale'])):.3e})")
+    except Exception as e:  # noqa: BLE001 - an array that cannot be read any more
+        _not_watchdog(e)
+        why.append(f"its action can no longer be evaluated ({e!r})"[:200])
+    return "; ".join(why) if why else None
+
+
+_GRID_ARRAYS = ("chiValues", "rzValues", "rpValues", "xiValues", "pzValues", "ppValues")
+
+
+def grid_state(grid):
+    st = {"N": grid.N, "M": grid.M, "T": grid.momentumFalloffT, "L": grid.positionFalloff}
+    for nm in _GRID_ARRAYS:
+        st[nm] = np.array(getattr(grid, nm), copy=True)
+    return st
+
+
+def grid_diff(grid, st):
+    for nm in ("N", "M"):
+        if getattr(grid, nm) != st[nm]:
+            return f"grid.{nm} {st[nm]} -> {getattr(grid, nm)}"
+    if grid.momentumFalloffT != st["T"] or grid.positionFalloff != st["L"]:
+        return "grid fall-off scales changed"
+    for nm in _GRID_ARRAYS:
+        v = np.asarray(getattr(grid, nm))
+        if v.shape != st[nm].shape or not np.array_equal(v, st[nm]):
+            return f"grid.{nm} changed"
+    return None
+
+
+def dir_state(path):
+    try:
+        out = []
+        for fn in sorted(os.listdir(path)):
+            stt = os.stat(os.path.join(path, fn))
+            out.append((fn, stt.st_size, stt.st_mtime_ns))
+        return out
+    except OSError:
+        return None
+
+
 # ------------------------------------------------------------------------ hook monitors
 class _Hooks:
     """Recording wrappers around the three CollisionArray entry points.  Judgement
@@ -235,6 +393,28 @@ class _Hooks:
         self.records = []
         self.mon = collections.Counter()
         self.ratios = []
+        self.watched = []       # [(name, array, snapshot)]: arrays the caller keeps using
+
+    # -- operand preservation: arrays the driver holds must survive every operation that
+    #    is not documented to work in place on that very object
+    def watch(self, name, arr):
+        self.watched = [w for w in self.watched if w[1] is not arr]
+        self.watched.append((name, arr, array_state(arr)))
+
+    def unwatch_all(self):
+        self.watched = []
+
+    def check_watched(self, op, in_place=None, judged=None):
+        for name, arr, snap in self.watched:
+            if arr is in_place or arr is judged or any(arr is s_ for s_ in self.stack):
+                continue        # in place by contract / judged by this or the enclosing hook
+            self.mon["operand_watch_compares"] += 1
+            why = state_diff(arr, snap)
+            if why:
+                self.records.append({
+                    "mech": "operation-disturbs-another-collision-array",
+                    "msg": f"{op} changed the {name} array it was not applied to: {why}",
+                    "data": {"op": op, "why": why}})
 
     def begin(self, judge=True):
         """judge=False: calls are counted and run, nothing is decided (used where the
@@ -262,15 +442,27 @@ class _Hooks:
         orig_cb = CollisionArray.changeBasis
         orig_ip = CollisionArray.interpolateCollisionArray
         orig_nd = CollisionArray.newFromDirectory
+        orig_np = CollisionArray.newFromPolynomial
 
         def changeBasis(self_, newBasisType):
             if not H.active:
                 return orig_cb(self_, newBasisType)
             pre_basis = self_.basisType
             pre = np.array(self_.polynomialData.coefficients, dtype=float, copy=True)
+            fixed = (self_.grid, self_.size, list(self_.particles))
             out = orig_cb(self_, newBasisType)
             H.judge_change_basis(self_, pre, pre_basis, newBasisType,
                                  "nested" if H.stack else "top")
+            # documented to work in place on self: numbers and labels may change, nothing else
+            H.mon["operand_checks_changeBasis"] += 1
+            if out is not self_ or self_.grid is not fixed[0] or self_.size != fixed[1] or \
+                    len(self_.particles) != len(fixed[2]) or \
+                    any(q is not q0 for q, q0 in zip(self_.particles, fixed[2])):
+                H.records.append({"mech": "basis-change-alters-more-than-basis",
+                                  "msg": f"changeBasis({newBasisType!r}) changed grid, size or "
+                                         f"particles of the array or did not return it",
+                                  "data": {}})
+            H.check_watched(f"changeBasis({pre_basis}->{newBasisType})", in_place=self_)
             return out
 
         def interpolateCollisionArray(srcCollision, targetGrid):
@@ -278,26 +470,88 @@ class _Hooks:
                 return orig_ip(srcCollision, targetGrid)
             pre_basis = srcCollision.basisType
             pre = np.array(srcCollision.polynomialData.coefficients, dtype=float, copy=True)
-            H.stack.append("interp")
+            src_snap = array_state(srcCollision)
+            grid_snap = grid_state(targetGrid)
+            H.stack.append(srcCollision)
             n0 = len(H.records)
             try:
                 out = orig_ip(srcCollision, targetGrid)
             finally:
                 H.stack.pop()
-            nested = sorted({r["mech"] for r in H.records[n0:]})
+                H.judge_operands_interpolate(srcCollision, src_snap, targetGrid, grid_snap)
+            nested = sorted({r["mech"] for r in H.records[n0:]
+                             if r["mech"] not in OPERAND_MECHS})
             H.judge_interpolate(srcCollision, pre, pre_basis, targetGrid, out, nested)
+            H.check_watched(f"interpolateCollisionArray(N {srcCollision.grid.N}->{targetGrid.N})",
+                            judged=srcCollision)
             return out
 
         def newFromDirectory(directoryPath, grid, basisType, particles, bInterpolate=True):
-            if H.active:
-                H.mon["newFromDirectory_calls"] += 1
-            return orig_nd(directoryPath, grid, basisType, particles, bInterpolate)
+            if not H.active:
+                return orig_nd(directoryPath, grid, basisType, particles, bInterpolate)
+            H.mon["newFromDirectory_calls"] += 1
+            gsnap = grid_state(grid)
+            psnap = [(q, q.name, q.index) for q in particles]
+            fsnap = dir_state(directoryPath)
+            try:
+                return orig_nd(directoryPath, grid, basisType, particles, bInterpolate)
+            finally:
+                H.mon["operand_checks_newFromDirectory"] += 1
+                why = grid_diff(grid, gsnap)
+                if why is None and (len(particles) != len(psnap) or any(
+                        q is not q0 or q.name != n0_ or q.index != i0
+                        for q, (q0, n0_, i0) in zip(particles, psnap))):
+                    why = "the particle list handed in was changed"
+                if why is None and dir_state(directoryPath) != fsnap:
+                    why = "the files of the directory were changed"
+                if why:
+                    H.records.append({"mech": "load-disturbs-its-inputs",
+                                      "msg": f"newFromDirectory(N={grid.N}, {basisType}): {why}",
+                                      "data": {"why": why}})
+                H.check_watched(f"newFromDirectory(N={grid.N}, {basisType})")
+
+        def newFromPolynomial(inputPolynomial, particles):
+            if not H.active:
+                return orig_np(inputPolynomial, particles)
+            pre = np.array(inputPolynomial.coefficients, dtype=float, copy=True)
+            pre_basis = tuple(inputPolynomial.basis)
+            try:
+                return orig_np(inputPolynomial, particles)
+            finally:
+                H.mon["operand_checks_newFromPolynomial"] += 1
+                post = np.asarray(inputPolynomial.coefficients)
+                if post.shape != pre.shape or not np.array_equal(post, pre) \
+                        or tuple(inputPolynomial.basis) != pre_basis:
+                    H.records.append({"mech": "newFromPolynomial-disturbs-input-polynomial",
+                                      "msg": f"newFromPolynomial changed the polynomial it was "
+                                             f"given (declared basis {pre_basis} -> "
+                                             f"{tuple(inputPolynomial.basis)})", "data": {}})
 
         changeBasis.__wrapped__ = orig_cb
         CollisionArray.changeBasis = changeBasis
         CollisionArray.interpolateCollisionArray = staticmethod(interpolateCollisionArray)
         CollisionArray.newFromDirectory = staticmethod(newFromDirectory)
+        CollisionArray.newFromPolynomial = staticmethod(newFromPolynomial)
         self.installed = True
+
+    # -- oracle at interpolateCollisionArray, operand side
+    def judge_operands_interpolate(self, src, src_snap, target_grid, grid_snap):
+        self.mon["operand_checks_interpolate"] += 1
+        self.mon["operand_checks_interpolate_src_" + src_snap["basisType"]] += 1
+        why = state_diff(src, src_snap)
+        if why:
+            self.records.append({
+                "mech": "interpolation-disturbs-its-source-array",
+                "msg": f"interpolateCollisionArray N {src_snap['gridN']}->{target_grid.N}, "
+                       f"{src_snap['coef'].shape[0]} particles, source in "
+                       f"{src_snap['basisType']} basis: the source array handed in is no "
+                       f"longer what it was: {why}",
+                "data": {"why": why, "src_basis": src_snap["basisType"],
+                         "Ns": src_snap["gridN"], "Nt": int(target_grid.N)}})
+        why = grid_diff(target_grid, grid_snap)
+        if why:
+            self.records.append({"mech": "interpolation-disturbs-target-grid",
+                                 "msg": f"interpolateCollisionArray: {why}", "data": {}})
 
     # -- oracle at changeBasis
     def judge_change_basis(self, arr, pre, pre_basis, new_basis, ctx):
@@ -350,9 +604,6 @@ class _Hooks:
         self.mon["interpolate_calls"] += 1
         gs, gt = gridref(src.grid), gridref(target_grid)
         P, T = pre.shape[0], gt.N - 1
-        if not (np.array_equal(np.asarray(src.polynomialData.coefficients), pre)
-                and src.basisType == pre_basis):
-            self.mon["interpolate_mutated_its_input(recorded only)"] += 1
         C = np.asarray(out.polynomialData.coefficients)
         info = {"Ns": gs.N, "Nt": gt.N, "P": int(P), "src_basis": pre_basis,
                 "out_basis": out.basisType}
@@ -462,7 +713,7 @@ def verify_loaded(arr, spec: DirSpec, sel, grid, req, hook_records, mon, ratios,
     summary = {"max_ratio": float(np.max(res / tol)), "kappa": gs.kappa + gt.kappa}
     if len(bad):
         a, b = (int(v) for v in bad[0])
-        hook_mechs = sorted({r["mech"] for r in hook_records})
+        hook_mechs = sorted({r["mech"] for r in hook_records if r["mech"] not in OPERAND_MECHS})
         summary["end_to_end_mismatch"] = True
         if hook_mechs:
             # already located at a hook; do not report the same defect under a second name
@@ -549,6 +800,17 @@ def generate(tier, seed):
                               "grid": _grid_cfg(rng, plain=True),
                               "missing": "sample", "allpos": tier == "thorough",
                               "s": int(rng.integers(1 << 30))})
+    # operand cases: own random stream (the older kinds keep their draws)
+    orng = np.random.default_rng(14100 + seed)
+    for rep in range(1 if tier == "quick" else 10):
+        for U, Ns, basis in itertools.product((1, 2, 3), (5, 7, 9, 11), BASES):
+            for how in ("dir", "dir-other", "poly", "ctor"):
+                if tier == "quick" and how in ("poly", "ctor") and orng.random() < 0.5:
+                    continue
+                cases.append({"kind": "operand", "U": U, "Ns": Ns, "basis": basis, "how": how,
+                              "data": str(orng.choice(["tag", "random", "mixed"])),
+                              "grid": _grid_cfg(orng), "s": int(orng.integers(1 << 30))})
+                cases[-1]["grid"]["spacing"] = "Spectral"
     for i, c in enumerate(cases):
         c["i"] = i
     return cases
@@ -1024,11 +1286,304 @@ def _case_fault(case):
             "viol": viol, "mon": dict(mon)}
 
 
+# ---------------------------------------------------------------------- operand case
+class _SourceLost(Exception):
+    """The caller's source array was found disturbed: the case ends there."""
+
+
+def _case_operand(case):
+    """A caller builds ONE source array, keeps it, and goes on using it after every
+    operation the class offers: read accessors, interpolation (twice, to several sizes, in
+    both bases), basis change of a copy, basis change of the array itself there and back,
+    newFromPolynomial on its polynomial, installation in a BoltzmannSolver followed by a
+    further load.  The hooks judge every call (result and operands); the driver judges
+    the source against its first snapshot where nothing is documented to work in place,
+    and through its action where it was taken to the other basis and back."""
+    from WallGo import BoltzmannSolver, CollisionArray
+    from WallGo.polynomial import Polynomial
+    rng = np.random.default_rng(case["s"])
+    U, Ns, basis, how = case["U"], case["Ns"], case["basis"], case["how"]
+    other = BASES[1 - BASES.index(basis)]
+    names = [NAMES[i] for i in rng.permutation(len(NAMES))[:U]]
+    sel = tuple(range(U))
+    mon = collections.Counter()
+    ratios = []
+    viol = []
+    seen = set()
+    obs = {"names": names, "steps": [], "viol_counts": {}}
+    cls = {"operand", f"operand:P{U}", f"operand:src={basis}", f"operand:how={how}",
+           f"operand:N={Ns}"}
+
+    def add(v):
+        obs["viol_counts"][v["mech"]] = obs["viol_counts"].get(v["mech"], 0) + 1
+        if v["mech"] not in seen:
+            seen.add(v["mech"])
+            viol.append(v)
+
+    def drain(step):
+        for r in HOOKS.end():
+            r = dict(r)
+            r["msg"] = f"[{step}] " + r["msg"]
+            add(r)
+        HOOKS.begin()
+
+    def source_intact(step, snap):
+        """Driver-side judgement: the array the caller holds is what it was."""
+        mon["operand_source_checks"] += 1
+        why = state_diff(src, snap)
+        obs["steps"].append(step)
+        located = [r for r in HOOKS.records if r["mech"] in OPERAND_MECHS]
+        if located and not why:
+            # an operand other than the caller's source (its copy, a grid) was disturbed and
+            # the hook has named it: what follows would be computed from corrupted objects
+            drain(step)
+            raise _SourceLost(step)
+        if why:
+            drain(step)
+            if located:
+                # the hook of the very call at fault has named it; no second name
+                obs["source_lost_located_at_hook"] = sorted({r["mech"] for r in located})
+            else:
+                add({"mech": "source-array-not-preserved-by-" + step.split(":")[0],
+                     "msg": f"after {step} the caller's source array (N={Ns}, {U} particles, "
+                            f"{snap['basisType']}) is no longer what it was: {why}",
+                     "data": {"step": step, "why": why}})
+            # everything further in this case would be computed from a corrupted source
+            raise _SourceLost(step)
+        return True
+
+    wd = tempfile.mkdtemp(prefix="wgC14_")
+    try:
+        file_basis = basis if how != "dir-other" else other
+        spec = build_dir(wd, "D", int(rng.integers(1, 90)), names, Ns, file_basis,
+                         case["data"], rng)
+        mon["directories_written"] += 1
+        gridS = make_grid(case["grid"], Ns)
+        parts = make_particles(names, sel)
+        HOOKS.unwatch_all()
+        HOOKS.begin()
+        # ---- the source array
+        try:
+            if how.startswith("dir"):
+                src = CollisionArray.newFromDirectory(pathlib.Path(spec.path), gridS, basis, parts)
+            else:
+                poly = Polynomial(np.array(spec.source_array(sel)), gridS,
+                                  ("Array", "Cardinal", "Cardinal", "Array", basis, basis),
+                                  CollisionArray.AXIS_TYPES, endpoints=False)
+                if how == "poly":
+                    src = CollisionArray.newFromPolynomial(poly, parts)
+                else:
+                    src = CollisionArray(gridS, basis, parts)
+                    src.polynomialData.coefficients = np.array(spec.source_array(sel))
+        except _SourceLost:
+            raise
+        except Exception as e:  # noqa: BLE001
+            _not_watchdog(e)
+            HOOKS.end()
+            return {"key": f"operand:{case['i']}", "cls": sorted(cls), "nontrivial": False,
+                    "obs": obs, "mon": dict(mon),
+                    "viol": [{"mech": f"source-construction-raises-{type(e).__name__}",
+                              "msg": f"building the source array ({how}, N={Ns}, {basis}) "
+                                     f"raised {e!r}"[:300], "data": {}}]}
+        drain("construction")
+        if src.getBasisType() != basis or src.getBasisSize() != Ns - 1:
+            add({"mech": "source-construction-label-wrong",
+                 "msg": f"source built as ({how}, N={Ns}, {basis}) declares "
+                        f"{src.getBasisType()} / size {src.getBasisSize()}", "data": {}})
+        S0 = array_state(src)
+        HOOKS.watch("caller's source", src)
+
+        # ---- 1. read accessors
+        _ = (src.getBasisSize(), src.getBasisType(), src[0], src[slice(None)],
+             src[0, 0, 0, 0, 0, 0])
+        mon["operand_checks_reads"] += 1
+        source_intact("read-accessors", S0)
+
+        # ---- 2. interpolation, twice per target size, source in its own basis
+        targets = [int(n) for n in range(3, Ns, 2)]
+        if len(targets) > 2:
+            targets = sorted(int(n) for n in rng.choice(targets, size=2, replace=False))
+        first = {}
+        for Nt in targets:
+            gT = make_grid(case["grid"], Nt)
+            try:
+                o1 = CollisionArray.interpolateCollisionArray(src, gT)
+                ok = source_intact(f"interpolation:{Ns}->{Nt}:{basis}", S0)
+                o2 = CollisionArray.interpolateCollisionArray(src, gT)
+                ok = source_intact(f"interpolation:{Ns}->{Nt}:{basis}:second", S0) and ok
+            except _SourceLost:
+                raise
+            except Exception as e:  # noqa: BLE001
+                _not_watchdog(e)
+                add({"mech": f"interpolation-raises-{type(e).__name__}",
+                     "msg": f"interpolateCollisionArray N {Ns}->{Nt} ({basis}) raised {e!r}"[:300],
+                     "data": {}})
+                continue
+            drain(f"interpolation {Ns}->{Nt} from {basis}")
+            first[Nt] = (o1, gT)
+            mon["operand_repeat_interpolations"] += 1
+            c1 = np.asarray(o1.polynomialData.coefficients)
+            c2 = np.asarray(o2.polynomialData.coefficients)
+            if ok and (c1.shape != c2.shape or not np.array_equal(c1, c2)
+                       or o1.getBasisType() != o2.getBasisType()):
+                add({"mech": "interpolation-not-repeatable",
+                     "msg": f"two interpolations N {Ns}->{Nt} of the same unchanged source "
+                            f"({basis}) gave different arrays", "data": {}})
+
+        # ---- 3. basis change (and interpolation) of a deep copy: the original stays
+        cp = copy.deepcopy(src)
+        try:
+            cp.changeBasis(other)
+            source_intact(f"basis-change-of-a-copy:{basis}->{other}", S0)
+            for Nt in targets[:1]:
+                CollisionArray.interpolateCollisionArray(cp, first[Nt][1] if Nt in first
+                                                         else make_grid(case["grid"], Nt))
+                source_intact(f"interpolation-of-a-copy:{Ns}->{Nt}:{other}", S0)
+            cp.changeBasis(basis)
+            source_intact(f"basis-change-of-a-copy:{other}->{basis}", S0)
+        except _SourceLost:
+            raise
+        except Exception as e:  # noqa: BLE001
+            _not_watchdog(e)
+            add({"mech": f"basis-change-raises-{type(e).__name__}",
+                 "msg": f"operations on a deep copy raised {e!r}"[:300], "data": {}})
+        drain("operations on a deep copy")
+
+        # ---- 4. newFromPolynomial on the source's own polynomial (aliases it by design)
+        try:
+            alias = CollisionArray.newFromPolynomial(src.polynomialData, parts)
+            source_intact("newFromPolynomial", S0)
+            if alias.getBasisType() != basis or not np.array_equal(
+                    np.asarray(alias.polynomialData.coefficients), S0["coef"]):
+                add({"mech": "newFromPolynomial-result-differs-from-input",
+                     "msg": f"array made from the source's polynomial declares "
+                            f"{alias.getBasisType()} / holds other numbers", "data": {}})
+            del alias
+        except _SourceLost:
+            raise
+        except Exception as e:  # noqa: BLE001
+            _not_watchdog(e)
+            add({"mech": f"newFromPolynomial-raises-{type(e).__name__}",
+                 "msg": f"newFromPolynomial(src.polynomialData) raised {e!r}"[:300], "data": {}})
+        drain("newFromPolynomial")
+
+        # ---- 5. the source itself to the other basis (in place by contract), used there,
+        #         and back: judged through its action
+        g = gridref(gridS)
+        tol_rt = 2.0 * ref.action_tolerance(S0["scale"], g.kappa, g.kappa)
+        try:
+            ret = src.changeBasis(other)
+            if ret is not src or src.getBasisType() != other:
+                add({"mech": "basis-change-label-wrong",
+                     "msg": f"src.changeBasis({other!r}) returned another object or declares "
+                            f"{src.getBasisType()}", "data": {}})
+            S1 = array_state(src)
+            HOOKS.watch("caller's source", src)
+            for Nt in targets:
+                gT = first[Nt][1] if Nt in first else make_grid(case["grid"], Nt)
+                o3 = CollisionArray.interpolateCollisionArray(src, gT)
+                source_intact(f"interpolation:{Ns}->{Nt}:{other}", S1)
+                # the same operator was interpolated before from the other representation
+                if Nt in first and not seen:
+                    gt = gridref(gT)
+                    A1, sc1 = ref.actual_action(np.asarray(first[Nt][0].polynomialData.coefficients),
+                                                gt, first[Nt][0].getBasisType())
+                    A3, _ = ref.actual_action(np.asarray(o3.polynomialData.coefficients), gt,
+                                              o3.getBasisType())
+                    Eo, sco = ref.expected_action(S0["coef"], g, basis, gt)
+                    tl = 3.0 * ref.action_tolerance(sco, g.kappa, gt.kappa)
+                    res = ref.pair_residuals(A1, A3)
+                    mon["operand_cross_basis_interpolations"] += 1
+                    ratios.append(("interp-cross-basis", float(np.max(res / tl))))
+                    if not np.all(res <= tl):
+                        add({"mech": "interpolation-depends-on-source-basis",
+                             "msg": f"N {Ns}->{Nt}: interpolating the source from {basis} and, "
+                                    f"after src.changeBasis, from {other} gives operators whose "
+                                    f"actions differ by {float(np.max(res)):.3e} (tolerance "
+                                    f"{float(np.min(tl)):.3e})", "data": {}})
+            src.changeBasis(basis)
+            drain(f"source to {other}, interpolated there, and back")
+            mon["operand_round_trips"] += 1
+            A2, _, _ = accessor_action(src)
+            res = ref.pair_residuals(S0["action"], A2)
+            ratios.append(("round-trip", float(np.max(res / tol_rt))))
+            lab = (src.basisType, src.getBasisType(), tuple(src.polynomialData.basis))
+            if lab != (S0["basisType"], S0["getBasisType"], S0["pbasis"]) or \
+                    not np.all(res <= tol_rt):
+                add({"mech": "basis-round-trip-alters-operator-action",
+                     "msg": f"source N={Ns} {basis} -> {other} -> {basis} (interpolated in "
+                            f"between): declares {lab}, action moved by "
+                            f"{float(np.max(res)):.3e} (tolerance {float(np.min(tol_rt)):.3e})",
+                     "data": {}})
+        except _SourceLost:
+            raise
+        except Exception as e:  # noqa: BLE001
+            _not_watchdog(e)
+            add({"mech": f"basis-change-raises-{type(e).__name__}",
+                 "msg": f"source there-and-back raised {e!r}"[:300], "data": {}})
+        drain("source there and back")
+
+        # ---- 6. installed in a solver; a further successful load replaces it there and
+        #         leaves the caller's array alone
+        S2 = array_state(src)
+        HOOKS.watch("caller's source", src)
+        solver = BoltzmannSolver(gridS, "Cardinal", basis)
+        solver.updateParticleList(parts)
+        solver.setCollisionArray(src)
+        if solver.collisionArray is not src:
+            add({"mech": "setCollisionArray-installs-another-object",
+                 "msg": "solver.collisionArray is not the array handed to setCollisionArray",
+                 "data": {}})
+        source_intact("setCollisionArray", S2)
+        for Nt in ([Ns] + targets[-1:]):
+            try:
+                s2 = solver if Nt == Ns else BoltzmannSolver(make_grid(case["grid"], Nt),
+                                                              "Cardinal", basis)
+                if s2 is not solver:
+                    s2.updateParticleList(parts)
+                    s2.setCollisionArray(src)      # (wrong size for s2; it is about to reload)
+                s2.loadCollisions(pathlib.Path(spec.path))
+                mon["operand_loads_over_installed"] += 1
+                if s2.collisionArray is src:
+                    add({"mech": "load-reuses-installed-array-object",
+                         "msg": "after a successful load solver.collisionArray is still the "
+                                "object installed by the caller", "data": {}})
+                source_intact(f"load-over-installed-array:{Nt}", S2)
+            except _SourceLost:
+                raise
+            except Exception as e:  # noqa: BLE001
+                _not_watchdog(e)
+                add({"mech": f"load-valid-directory-raises-{type(e).__name__}",
+                     "msg": f"loadCollisions over an installed array raised {e!r}"[:300],
+                     "data": {}})
+        drain("installed in a solver, further load")
+        HOOKS.end()
+    except _SourceLost as lost:
+        obs["ended_at"] = str(lost)
+        HOOKS.end()
+    finally:
+        HOOKS.active = False
+        HOOKS.unwatch_all()
+        shutil.rmtree(wd, ignore_errors=True)
+    hm, hr = HOOKS.drain_mon()
+    mon.update(hm)
+    ratios += hr
+    obs["ratio_max"] = _ratio_summary(ratios)
+    obs["ratio_hist"] = _ratio_hist(ratios)
+    key = (f"operand:{U}:{Ns}:{basis}:{how}:{case['data']}:{case['grid']['cls']}:"
+           f"{case['s'] % 9973}")
+    return {"key": key, "cls": sorted(cls),
+            "nontrivial": mon["operand_source_checks"] > 0 and mon["operand_checks_interpolate"] > 0,
+            "obs": obs, "viol": viol, "mon": dict(mon)}
+
+
 def run_case(case):
     HOOKS.install()
     HOOKS.drain_mon()
     if case["kind"] == "load":
         return _case_load(case)
+    if case["kind"] == "operand":
+        return _case_operand(case)
     return _case_fault(case)
 
 
